@@ -712,7 +712,8 @@ def c02(tapes, params):
     w.gen_tags(ntags=g.between(2, 4, 'ntags'), maxlen=params.get('maxlen', 24), types=FIXED_TYPES + ['SSTRING'])
     w.start_server()
     unique = {'n': 0}
-    mode = params.get('mode') or g.weighted([(1, 'seg'), (1, 'cut')], 'mode')
+    mode = g.weighted([(1, 'seg'), (1, 'cut')], 'mode')         # always drawn, so that explicit parameters
+    mode = params.get('mode') or mode                           # (sweeps) see the same generated stream
     nframes = g.between(1, params.get('max_frames', 8), 'nframes')
     tags = sorted(w.model.tags.values(), key=lambda t: t.name)
     # the second session works on its own storage
@@ -839,14 +840,15 @@ def c02(tapes, params):
         else:
             # --- crash point: deliver exactly k bytes of the stream, then end the connection
             n = len(stream)
-            k = params.get('cut')
-            if k is None:
-                j = g.draw(len(items), 'cutframe')
-                lo = bounds[j - 1] if j else 0
-                k = g.weighted([(4, lo + 1 + g.draw(max(1, bounds[j] - lo - 1), 'cutin')),
-                                (1, lo), (1, lo + min(24, bounds[j] - lo - 1)), (1, lo + 3)], 'cutk')
+            j = g.draw(len(items), 'cutframe')
+            lo = bounds[j - 1] if j else 0
+            k = g.weighted([(4, lo + 1 + g.draw(max(1, bounds[j] - lo - 1), 'cutin')),
+                            (1, lo), (1, lo + min(24, bounds[j] - lo - 1)), (1, lo + 3)], 'cutk')
+            if params.get('cut') is not None:
+                k = params['cut']
             k = max(0, min(k, n))
-            how = params.get('how') or g.choice(['FIN', 'RST', 'STALL'], 'how')
+            how = g.choice(['FIN', 'RST', 'STALL'], 'how')
+            how = params.get('how') or how
             stats['cut'] = k
             stats['how'] = how
             complete = [it for it, b in zip(items, bounds) if b <= k]
